@@ -302,6 +302,30 @@ func (e *Enc) call(v *ssa.Call, c *ssa.CallCommon) {
 	for i := 0; i < nres; i++ {
 		e.wfValue(resTerms[i], ci.sig.Results().At(i).Type(), "")
 	}
+	// behaviour assumptions of the enclosing function attached to this callee
+	defer func() {
+		if e.spec == nil {
+			return
+		}
+		for _, ac := range e.spec.AtCalls {
+			if len(ac.Assumes) == 0 || (ac.Pattern != ci.key && !strings.HasSuffix(ci.key, ac.Pattern)) {
+				continue
+			}
+			aenv := e.fv.siteEnv(e, e.curBlock, e.curIdx)
+			aenv.oldVer = pre
+			for _, cl := range ac.Assumes {
+				if !e.pass.Active(cl.Tags) {
+					continue
+				}
+				t, _, err := aenv.elab(cl.E)
+				if err != nil {
+					e.errorf("at-call %s assume %s: %v", ac.Pattern, cl.Loc(), err)
+					continue
+				}
+				e.assume(fmt.Sprintf("(=> %s %s)", e.reach[e.curBlock], t))
+			}
+		}
+	}()
 	// postconditions
 	if ci.spec != nil {
 		env.oldVer = pre
